@@ -13,6 +13,7 @@ import (
 	"encoding/json"
 	"fmt"
 	"os"
+	"path/filepath"
 	"sort"
 	"strings"
 	"time"
@@ -167,25 +168,36 @@ func judge(out *caseOut, sc *script, ho *histOut) {
 			return
 		}
 	}
-	out.Porc["illegal:"+v.Level]++
-	switch v.Level {
-	case "relaxed-module-close":
-		out.add(finding{Sig: "atomicity:module-close-steps-visible", Witness: w,
-			Detail: "history has no linearization with an atomic Module.Close, but has one if Close first marks the module closed and releases its name later: clients saw a closed module still owning its name"})
-	case "relaxed-runtime-close":
-		out.add(finding{Sig: "atomicity:runtime-close-steps-visible", Witness: w,
-			Detail: "history has no linearization with an atomic Runtime.Close, but has one if Close first makes requests fail, then closes modules one by one and empties the registry last"})
-	case "relaxed-both":
-		out.add(finding{Sig: "atomicity:module-and-runtime-close-steps-visible", Witness: w,
-			Detail: "history is linearizable only if both Module.Close and Runtime.Close are allowed to take effect in two steps"})
-	default:
+	if v.None {
+		out.Porc["illegal:unexplained"]++
 		w["core"] = lines(v.Core)
+		w["longest_partial_linearization"] = v.Longest
 		out.add(finding{Sig: "nonlin:" + label(v.Core), Witness: w,
-			Detail: "history has no linearization in the sequential registry model (not even with two-step closes); minimal illegal part: " + strings.Join(lines(v.Core), "; ")})
+			Detail: "history has no linearization in the sequential registry model (not even with two-step closes); illegal part: " + core.Trunc(strings.Join(lines(v.Core), "; "), 600)})
+		return
+	}
+	out.Porc["illegal:"+v.Level.String()]++
+	w["admitted_by"] = v.Level.String()
+	if v.Level.M {
+		out.add(finding{Sig: "atomicity:module-close-steps-visible", Witness: w,
+			Detail: "history has no linearization with an atomic Module.Close, but has one if Close first marks the module closed and releases its name later, and a Close that finds the module already marked returns at once: clients saw a closed module still owning its name"})
+	}
+	if v.Level.R {
+		out.add(finding{Sig: "atomicity:runtime-close-steps-visible", Witness: w,
+			Detail: "history has no linearization with an atomic Runtime.Close, but has one if Close first makes requests fail, then closes modules one by one and empties the registry last, and a Close that finds the runtime already marked returns at once"})
+	}
+	if v.Level.D {
+		out.add(finding{Sig: "nonlin:explained-by:failed-duplicate-instantiate-releases-name", Witness: w,
+			Detail: "history is linearizable only in a registry where an instantiate failing with 'name in use' releases that name (see the seq: finding for the single-client trigger)"})
+	}
+	if v.Level.H {
+		out.add(finding{Sig: "nonlin:explained-by:host-compile-ignores-closed-runtime", Witness: w,
+			Detail: "history is linearizable only if HostModuleBuilder.Compile may succeed after requests started to fail with 'runtime closed'"})
 	}
 }
 
 func run(c *core.Ctx) int {
+	os.RemoveAll(filepath.Join(c.Out, "children")) // logs of earlier runs
 	rng := core.NewRng(c.Seed, 10)
 	mk := func(n, reps int) []json.RawMessage {
 		var cs []json.RawMessage
@@ -195,8 +207,8 @@ func run(c *core.Ctx) int {
 		return cs
 	}
 	seqCases := mk(c.N(3000, 40000), 1)
-	concCases := mk(c.N(1500, 30000), 2) // 3 000 / 60 000 histories
-	raceCases := mk(c.N(600, 10000), 1)
+	concCases := mk(c.N(1500, 30000), c.N(2, 3)) // 3 000 / 90 000 histories
+	raceCases := mk(c.N(600, 15000), 1)
 
 	seqRes := core.RunCases(c, "seq", seqCases, core.ChildOpts{Batch: 100, TimeoutS: 600})
 	c.Extra("phase_seq_s", time.Since(c.Start).Seconds())
@@ -353,8 +365,9 @@ func crashHead(log string) string {
 	return log
 }
 
-// crashSig names a child crash by its message and the first wazero frame of
-// the crashing goroutine.
+// crashSig names a child crash by its message and the receiver type (or
+// function) of the first wazero frame of the crashing goroutine, so that the
+// different places where one unprotected map blows up share a signature.
 func crashSig(cr *core.Crash, log string) string {
 	head := crashHead(log)
 	msg, frame := "", ""
@@ -363,20 +376,26 @@ func crashSig(cr *core.Crash, log string) string {
 			msg = strings.TrimSpace(strings.TrimPrefix(strings.TrimPrefix(l, "fatal error:"), "panic:"))
 			continue
 		}
+		if i > 200 {
+			break
+		}
 		if strings.HasPrefix(l, "github.com/tetratelabs/wazero") && !strings.Contains(l, "/verifharness/") {
 			frame = strings.TrimPrefix(l, "github.com/tetratelabs/")
 			if j := strings.LastIndex(frame, "("); j > 0 {
 				frame = frame[:j]
 			}
-			break
-		}
-		if l == "" && i > 2 && frame == "" && strings.Contains(head[:min(len(head), 4000)], "goroutine") && i > 40 {
+			if j := strings.Index(frame, ")."); j > 0 { // method: keep the receiver type
+				frame = frame[:j+1]
+			}
 			break
 		}
 	}
 	kind := cr.Kind
 	if strings.HasPrefix(head, "fatal error:") {
 		kind = "fatal"
+	}
+	if strings.HasPrefix(msg, "concurrent map") {
+		msg = "concurrent map access"
 	}
 	if len(msg) > 60 {
 		msg = msg[:60]
